@@ -86,7 +86,7 @@ def run_all(ck, tier, ts, canaries, regmod="jxverif.kernels", strict=False, only
     for (t, can), o in zip(canaries, outs[len(ts):]):
         name = f"{can[0]}: {can[2]!r} -> {can[3]!r}"
         refuted = o[0] == "ok" and (any(r["status"] != "proved" for r in o[1]["results"]) or o[1]["error_kind"] in ("api", "index"))
-        ck.canaries.append((name, refuted))
+        ck.canary(name, refuted, o)
 
 
 def main(tier):
